@@ -99,6 +99,15 @@ step_kw = Prog("step_kw", ("c", "x", "scale"), (Site("z", "normal", ("c + x", "s
 vmap_kw = Prog("vmap_kw", ("av",), (VmapCall("v", inner_kw, (0,), None, ("av",), False, (("scale", "0.5"),)),), "xp.sum(v)")
 scan_kw = Prog("scan_kw", ("a", "xs"), (ScanCall("s", step_kw, 2, "a", "xs", (("scale", "0.7"),)),), "s[0]")
 
+# a site whose keyword parameter differs from lane to lane under Vmap
+kwsite = Prog(
+    "kwsite",
+    ("a", "b"),
+    (Site("x", "flip", ("0.4",)), Site("y", "normal", ("a",), (("scale", "xp.where(x, 0.5, 1.5) + 0.1 * xp.abs(b)"),))),
+    "y",
+)
+vmap_kwsite = Prog("vmap_kwsite", ("av", "bv"), (VmapCall("v", kwsite, (0, 0), None, ("av", "bv")),), "xp.sum(v)")
+
 # two-parameter body for in_axes=(None, 0)
 two = Prog(
     "two",
@@ -245,6 +254,7 @@ FAMILY = {
     "vecparam": (vecparam, [(A(0.1, 0.7),)], "quick"),
     "kw": (kw, [(f32(0.3),)], "quick"),
     "vmap_kw": (vmap_kw, [(A(0.1, 0.7),)], "quick"),
+    "vmap_kwsite": (vmap_kwsite, [(A(0.1, 0.7), A(0.5, -2.0))], "quick"),
     "scan_kw": (scan_kw, [(f32(0.3), A(0.5, -0.4))], "quick"),
     "call_chain": (call_chain, [(f32(0.3),)], "quick"),
     "call_disc": (call_disc, [(f32(0.3),)], "quick"),
@@ -286,6 +296,7 @@ ALT_ARGS = {
     "vecparam": [(A(0.5, -0.4),)],
     "kw": [(f32(-1.2),)],
     "vmap_kw": [(A(0.5, -0.4),)],
+    "vmap_kwsite": [(A(0.5, -0.4), A(1.0, 0.2))],
     "scan_kw": [(f32(-1.2), A(1.1, 0.1))],
     "call_chain": [(f32(-1.2),)],
     "call_disc": [(f32(-1.2),)],
